@@ -4,6 +4,7 @@
 #include <fips202.h>
 #include <stdio.h>
 #include <string.h>
+#include <verif_sign_hooks.h>
 
 #define RESPONSE_LENGTH TORSION_PLUS_EVEN_POWER + 16
 
@@ -186,6 +187,11 @@ sample_response(quat_alg_elem_t *x,
                 found = 0;
             }
         }
+#ifdef SQISIGN_SQISIGN2D_WEST_AC24_VERIF
+        /* H1 response steering: only rejects candidates (backtracking is 0 here: x is primitive) */
+        if (found && verif_h1_active() && !verif_h1_accept((int)mpz_scan1(norm, 0), 0))
+            found = 0;
+#endif
     }
     assert(quat_lattice_contains(NULL, lattice, x, &QUATALG_PINFTY));
 
@@ -310,8 +316,31 @@ protocols_sign(signature_t *sig,
     ibz_vec_2_init(&vec_chall);
     ibz_vec_2_init(&vec_resp_two);
 
+#ifdef SQISIGN_SQISIGN2D_WEST_AC24_VERIF
+    /* H1: with SQI_VERIF_H1_REUSE_COMMIT=1 the first commitment of the process is kept and used again by
+       later calls (the harness then varies the message to get a new challenge, hence a new response
+       lattice, without paying for a new commitment) */
+    static int verif_com_cached = 0;
+    static ec_curve_t verif_com_E;
+    static quat_left_ideal_t verif_com_I;
+    if (verif_env_int("SQI_VERIF_H1_REUSE_COMMIT", 0) && verif_com_cached) {
+        E_com = verif_com_E;
+        quat_left_ideal_copy(&lideal_commit, &verif_com_I);
+        goto verif_commit_done;
+    }
+#endif
     // computing the commitment
     commit(&E_com, &lideal_commit);
+#ifdef SQISIGN_SQISIGN2D_WEST_AC24_VERIF
+    if (verif_env_int("SQI_VERIF_H1_REUSE_COMMIT", 0)) {
+        if (!verif_com_cached)
+            quat_left_ideal_init(&verif_com_I);
+        verif_com_E = E_com;
+        quat_left_ideal_copy(&verif_com_I, &lideal_commit);
+        verif_com_cached = 1;
+    }
+verif_commit_done:;
+#endif
 
     // TODO make a clean constant for this
     int len_chall = SQIsign2D_heuristic_challenge_length;
@@ -351,6 +380,11 @@ protocols_sign(signature_t *sig,
     ibz_mul(&lattice_content, &(lideal_chall_secret.norm), &(lideal_commit.norm));
     found = sample_response(&resp_quat, &lattice_hom_chall_to_com, &lattice_content, verbose);
 
+#ifdef SQISIGN_SQISIGN2D_WEST_AC24_VERIF
+    /* H1: no candidate met the steering: give up with the hook-only code -1 (the harness calls again) */
+    if (!found && verif_h1_active())
+        return -1;
+#endif
     // TODO when it fails, we don't finalize all the ibz
     if (!found) {
         printf("heuristic response sampling failed \n");
